@@ -6,6 +6,7 @@ use std::sync::Once;
 
 thread_local! {
     static LAST_PANIC: RefCell<Option<(String, String)>> = const { RefCell::new(None) };
+    static GUARD_DEPTH: std::cell::Cell<u32> = const { std::cell::Cell::new(0) };
 }
 static HOOK: Once = Once::new();
 
@@ -24,6 +25,10 @@ pub fn install_panic_hook() {
             } else {
                 "<non-string panic>".to_string()
             };
+            if GUARD_DEPTH.with(|d| d.get()) == 0 {
+                // a panic of the harness itself (not of code under test): never silent
+                eprintln!("HARNESS PANIC at {}: {}", loc, msg);
+            }
             LAST_PANIC.with(|p| *p.borrow_mut() = Some((loc, msg)));
         }));
     });
@@ -71,7 +76,10 @@ impl Panic {
 pub fn guard<T>(f: impl FnOnce() -> T) -> Result<T, Panic> {
     install_panic_hook();
     LAST_PANIC.with(|p| *p.borrow_mut() = None);
-    match catch_unwind(AssertUnwindSafe(f)) {
+    GUARD_DEPTH.with(|d| d.set(d.get() + 1));
+    let r = catch_unwind(AssertUnwindSafe(f));
+    GUARD_DEPTH.with(|d| d.set(d.get() - 1));
+    match r {
         Ok(v) => Ok(v),
         Err(_) => {
             let (location, message) = LAST_PANIC
